@@ -15,7 +15,9 @@ from .c01 import build_world
 RATIOS = ['i:1', 'i:2', 'i:3', 'i:7', 'F:1/3', 'D:0.5']
 QRATIOS = [['kg', 'i:1'], ['g', 'i:500'], ['lb', 'i:1'], ['kg', 'D:0.25']]
 TS = [F(1), F(2), F(7), F(10), F(100), F(1001), F(-1), F(-7), F(-10),
-      F(-100)]
+      F(-100),
+      # more quanta than a float can count
+      F(7 * 10 ** 16 + 1), F(-(2 ** 53 + 3))]
 PLAIN = ['i:1', 'i:7', 'D:-2.5', 'D:1.005', 'F:1/3', 'F:-2/7',
          'i:1000000000000', 'D:0.000001', 'i:-1', 'D:0.5']
 USER = [['type', 'P', 'p0', 'F:1/3'],
@@ -293,7 +295,7 @@ def run(tier, seed):
     total.extra['modes'] = modes
     total.extra['max_ratio_list_length'] = maxlen
     return total, dict(
-        rule=f"4 worlds x {len(modes)} modes; per world 3 units x 10 amounts "
+        rule=f"4 worlds x {len(modes)} modes; per world 3 units x 12 amounts (up to 7e16 quanta) "
              f"(multiples of the unit's quantum, negative too) x all ratio "
              f"lists of length 1..{maxlen} over {{1,2,3,7,1/3,0.5}} plus "
              f"quantity-ratio lists of length 1..{qmaxlen} over 4 masses in "
